@@ -1172,6 +1172,12 @@ class WorkflowConductor(object):
         if retry_tally >= retry_count:
             return False
 
+        # A task can only be retried from a status that the task state machine can leave on
+        # retry. For example, a canceled task is completed but it cannot be retried. Requesting
+        # retry for such a task does not change the task status and leads to endless recursion.
+        if not machines.TaskStateMachine.is_transition_valid(task_status, statuses.RETRYING):
+            return False
+
         if task_status in statuses.ABENDED_STATUSES and task_state_entry["retry"]["when"] is None:
             return True
 
